@@ -129,3 +129,78 @@ func historyC53(K int, tmax int, periodBits uint) {
 		}
 	}
 }
+
+// ---------------------------------------------------------------- focused scenarios (seeded-change review)
+
+func mkReqNameC53(name string) *bfe_basic.Request {
+	hr := &bfe_http.Request{Method: "GET", Header: bfe_http.Header{}}
+	hr.Header.Set("X-Key", name)
+	req := &bfe_basic.Request{HttpRequest: hr}
+	req.Context = make(map[interface{}]interface{})
+	return req
+}
+
+// VerifC53_scenarios: three narrow histories with the symbolic clock (16-bit instants, periods < 2^12 ns,
+// every request handled in less than StayPeriod and less than CheckPeriod):
+//  0 idle-then-burst, Threshold 1, one key: a first request, a pause longer than CheckPeriod (any length:
+//    2, 3, 10 periods), then 2*Threshold+1 = 3 requests within one CheckPeriod. Whatever the alignment of
+//    the counting windows, Threshold+1 of the three fall into one window, so one of them is denied.
+//  1 jail length, Threshold 1, one key: two requests within one CheckPeriod of the first (the counter's
+//    own window) jail the key; a third request before (window start + CheckPeriod + StayPeriod), i.e.
+//    before "StayPeriod plus the rest of that period" has passed, is denied.
+//  2 other keys, Threshold 0, accessDictSize 2 < prisonDictSize 3: keys A, B, C are jailed one after the
+//    other (3 jailed keys fit the prison dictionary); A is still denied before its StayPeriod has passed.
+func VerifC53_scenarios() {
+	period, stay := int64(vrt.U16("period")), int64(vrt.U16("stay"))
+	vrt.Assume(period > 0 && period < 1<<12 && stay > 0 && stay < 1<<12)
+	scenario := vrt.Choose("scenario", 3)
+	names := [][]string{{"alice", "alice", "alice", "alice"}, {"alice", "alice", "alice"}, {"alice", "bob", "carol", "alice"}}[scenario]
+	threshold := []int32{1, 1, 0}[scenario]
+	r := new(prisonRule)
+	r.name = "r"
+	r.condStr = "default_t()"
+	r.action = action.Action{Cmd: "CLOSE"}
+	r.accessSigner = AccessSigner{AccessSignConf: AccessSignConf{Header: []string{"X-Key"}}}
+	r.checkPeriodNs, r.stayPeriodNs, r.threshold = period, stay, threshold
+	r.accessDictSize, r.prisonDictSize = 16, 16
+	if scenario == 2 {
+		r.accessDictSize, r.prisonDictSize = 2, 3
+	}
+	r.initDict(nil)
+
+	var a, b [4]int64
+	var denied [4]bool
+	for i := range names {
+		req := mkReqNameC53(names[i])
+		a[i] = time.Now().UnixNano()
+		// the timing constraints of the scenario are stated as early as possible (they prune the
+		// clock-comparison forks inside bfe)
+		if scenario == 0 && i == 1 {
+			vrt.Assume(a[1]-b[0] > period)
+		}
+		denied[i] = r.recordAndCheck(req)
+		b[i] = time.Now().UnixNano()
+		vrt.Assume(b[i]-a[i] < stay && b[i]-a[i] < period)
+		if scenario == 0 && i >= 1 {
+			vrt.Assume(b[i]-a[1] <= period)
+		}
+		if scenario == 1 && i == 1 {
+			vrt.Assume(b[1]-a[0] <= period)
+		}
+	}
+	switch scenario {
+	case 0:
+		vrt.Assert(!denied[0], "C53/burst-first-request-free")
+		vrt.Assert(denied[1] || denied[2] || denied[3], "C53/burst-after-idle-denied")
+	case 1:
+		vrt.Assert(!denied[0] && denied[1], "C53/jail-starts-at-threshold")
+		if b[2] < a[0]+period+stay {
+			vrt.Assert(denied[2], "C53/denied-until-stay-plus-rest-of-period")
+		}
+	case 2:
+		vrt.Assert(denied[0] && denied[1] && denied[2], "C53/each-key-jailed")
+		if b[3] < a[0]+stay {
+			vrt.Assert(denied[3], "C53/jailed-key-unaffected-by-other-keys")
+		}
+	}
+}
